@@ -731,6 +731,9 @@ func ruleSettingsTotal(c *Ctx) {
 						bad = "unchecked type assertion at " + c.P.pos(x.Pos())
 					}
 				case *ssa.Panic:
+					if !x.Pos().IsValid() {
+						continue // synthesised for range-over-func loops, not written in the source
+					}
 					bad = "explicit panic at " + c.P.pos(x.Pos())
 				case *ssa.IndexAddr:
 					bad = "slice/array indexing at " + c.P.pos(x.Pos())
